@@ -23,7 +23,7 @@ class Opaque:
         self.tag = tag
 
     def __repr__(self):
-        return 'Opaque(%s)' % self.tag
+        return tokens._new(self, 'r')
 
     def __format__(self, spec):
         return tokens._new(self, 'r' + spec if spec else 'r')
@@ -47,6 +47,11 @@ class OpaqueReal(Opaque):
 
 import numbers  # noqa: E402
 numbers.Real.register(OpaqueReal)
+
+
+def opaque_value(tag):
+    h = sum(ord(c) * (i + 1) for i, c in enumerate(tag)) % 9973
+    return h + 0.3125
 
 
 class ConcreteOpaqueFloat(float):
@@ -94,7 +99,9 @@ def norm(v, ev=None, depth=0):
         return ev(v.e) if ev else ('sym', str(v.e))
     if isinstance(v, SymBool):
         return bool(ev(v.e)) if ev else ('sym', str(v.e))
-    if isinstance(v, (Opaque, ConcreteOpaqueFloat, ConcreteOpaqueStr)):
+    if isinstance(v, (OpaqueReal, ConcreteOpaqueFloat)):
+        return opaque_value(v.tag)       # the same number in both modes (survives repr/eval)
+    if isinstance(v, (Opaque, ConcreteOpaqueStr)):
         return 'opaque:%s' % v.tag
     if isinstance(v, bool) or v is None or isinstance(v, (int, str)):
         return v
@@ -364,8 +371,7 @@ class ConCx(BaseCx):
 
     def opaque(self, name, kind='real'):
         # a distinctive concrete stand-in (float for 'real', str otherwise)
-        h = sum(ord(c) * (i + 1) for i, c in enumerate(name)) % 9973
-        v = ConcreteOpaqueFloat(h + 0.3125) if kind == 'real' else ConcreteOpaqueStr('opaque-%s' % name)
+        v = ConcreteOpaqueFloat(opaque_value(name)) if kind == 'real' else ConcreteOpaqueStr('opaque-%s' % name)
         v.tag = name
         return v
 
